@@ -23,6 +23,8 @@ def render(rec):
         defs = [n for n in NAMES if ds[i][n]]
         out = []
         kind = "module" if i == 0 else ks[i - 1]
+        if i >= 1 and rec["gs"][i - 1]:
+            out.append("(global x)")
         if kind != "let":
             out += [f"(setv {n} {INIT[n] + i})" for n in defs]
         if i < D:
@@ -86,7 +88,7 @@ def expected(rec):
 
 def shape_key(rec):
     """finding key: the kinds of the levels from the binding reached to the declaration"""
-    return json.dumps([rec["ks"], rec["ds"], rec["decl"], rec["dn"]])
+    return json.dumps([rec["ks"], rec["gs"], rec["ds"], rec["decl"], rec["dn"]])
 
 
 def finding_family(rec):
@@ -133,8 +135,8 @@ def main(run):
         short = [x for x in rows if len(x["ks"]) <= 2]
         rest = [x for x in rows if len(x["ks"]) > 2]
         # programs with a declaration are the interesting ones
-        decl = [x for x in rest if x["decl"] != "none"]
-        other = [x for x in rest if x["decl"] == "none"]
+        decl = [x for x in rest if x["decl"] != "none" or any(x["gs"])]
+        other = [x for x in rest if x["decl"] == "none" and not any(x["gs"])]
         rng.shuffle(decl)
         rng.shuffle(other)
         rows = short + decl[:int((cap - len(short)) * 0.85)] + other[:int((cap - len(short)) * 0.15)]
